@@ -76,3 +76,9 @@ CHECKS.update({
     note='Trusted: json.loads of the standard library as reference reading; the serialiser in props/c19.py only emits text valid in both JSON and ES5 (asserted on every case).',
     technique='Hypothesis property-based testing with a differential oracle (json.loads)'),
 })
+CHECKS.update({
+ 'C07': dict(
+    text='Scope-shaped generated programs (colliding name pool incl. the generated names), grammar-derived programs and wide scopes of 60-500 (thorough 3000) declarations under all 12 configurations (3 printers x obfuscate_globals x shadow_funcname): base and obfuscated outputs are parsed by the reference front end and resolved by an independent ES5 scope resolver; token streams/layout must agree outside identifier positions, each occurrence must resolve to the same declaring scope / label / free status, the renaming must be a bijection per scope, free and (unless requested) program-level names keep their spelling, and the output must parse.',
+    note=R1NOTE + ' Reference scope resolver harness/ref_scope.py (self-tested on hand-resolved programs).',
+    technique='Hypothesis property-based testing (scope-shaped generator) with a binding-isomorphism oracle from a reference scope resolver'),
+})
